@@ -218,7 +218,7 @@ func (e *c09Exec) run(steps []c09Step) {
 		val  []byte
 	}
 	var acks []ack
-	var failedRevs []uint64
+	var failedRevs []ack
 	faultSeen := false
 	for i, st := range steps {
 		key := e.keys[st.key]
@@ -304,7 +304,7 @@ func (e *c09Exec) run(steps []c09Step) {
 		if out.Succeeded {
 			acks = append(acks, ack{key, out.Rev, op.Kind, op.Val})
 		} else {
-			failedRevs = append(failedRevs, out.Rev)
+			failedRevs = append(failedRevs, ack{key, out.Rev, op.Kind, op.Val})
 		}
 	}
 	if e.faultAt != 0 && !faultSeen {
@@ -390,8 +390,16 @@ func (e *c09Exec) run(steps []c09Step) {
 		}
 	}
 	for _, fr := range failedRevs {
-		if l, ok := landedRevs[fr]; ok {
-			c.Violatef("C09 failed-write-landed", e.wit(), "a write answered with a failed condition at revision %d landed in the engine (key %q)", fr, l.raw)
+		// the revision in a failed answer is not always the write's own: a failed compare names the current key-value,
+		// whose revision may be the one under which the repair of an unknown outcome has just re-written the key. The
+		// record counts as the failed write's only if it is what that write would have stored (values are unique per write).
+		l, ok := landedRevs[fr.rev]
+		if !ok || l.raw != fr.key {
+			continue
+		}
+		isTomb := bytes.Equal(l.val, []byte("tombstone"))
+		if (fr.kind == "delete" && isTomb) || (fr.kind != "delete" && bytes.Equal(l.val, fr.val)) {
+			c.Violatef("C09 failed-write-landed", e.wit(), "a %s answered with a failed condition at revision %d landed in the engine (key %q, record %q)", fr.kind, fr.rev, l.raw, l.val)
 			return
 		}
 	}
